@@ -8,7 +8,10 @@
      `Krige.__call__`:       `iso_pos = self.pre_pos(pos)` (= `model.isometrize`), then per chunk
      `_get_krige_vecs`:      `res[:n, :] = cf(self._get_dists(self._krige_pos, iso_pos, chunk_slice))`
                              with `cf = cov_nugget if exact else covariance`;
-   * `SRF.__call__`:         `iso_pos = self.pre_pos(pos)`, then `self.generator(iso_pos)`.
+   * `SRF.__call__`:         `iso_pos = self.pre_pos(pos)`, then `self.generator(iso_pos)`;
+   * functional drift terms (universal kriging): `_get_krige_mat` evaluates `f(*self.cond_pos)` on the RAW conditioning
+     positions, `_get_krige_vecs` evaluates `f(*self.model.anisometrize(iso_pos)[:, chunk])`, i.e. on the target
+     positions transformed back from the isotropic coordinates.
 
    Core Lean only — no Mathlib import in this file. -/
 import GSV.Proto
@@ -69,6 +72,40 @@ def srfRandmeth (var : α) (k : Nat → Nat → α) (z1 z2 : Nat → α) (dim : 
 def srfFourier (sf : Nat → α) (modes : Nat → Nat → α) (z1 z2 : Nat → α) (dim : Nat) (angles anis : List α)
     (pos : Nat → Nat → α) (N X i : Nat) : α :=
   Gen.fourierField sf modes z1 z2 (isoPos dim angles anis pos) dim N X i
+
+/-! ### functional drift terms (universal kriging)
+
+`Krige.__call__` only keeps the isometrized targets `iso_pos`; the drift functions are functions of the RAW coordinates, so
+`_get_krige_vecs` transforms back: `chunk_pos = self.model.anisometrize(pos)[:, slice(*chunk_slice)]` (for EVERY model — there is no
+case distinction on "rotated" / "anisotropic" in the code). -/
+
+/-- `model.anisometrize(pos)` on a whole `(dim × n)` position array -/
+def anisoPos (dim : Nat) (angles anis : List α) (pos : Nat → Nat → α) : Nat → Nat → α :=
+  fun d i => Geo.anisometrize dim angles anis (colOf pos i) d
+
+/-- the positions the functional drift terms of the right-hand side are evaluated at:
+    `self.model.anisometrize(self.pre_pos(pos))` (column `p` = target `p`; the chunk loop only selects columns) -/
+def driftPos (dim : Nat) (angles anis : List α) (tpos : Nat → Nat → α) : Nat → Nat → α :=
+  anisoPos dim angles anis (isoPos dim angles anis tpos)
+
+/-- drift rows / columns of the kriging matrix: `f_k(*self.cond_pos)` (raw conditioning positions) -/
+def driftMat (g : Nat → (Nat → α) → α) (cpos : Nat → Nat → α) : Nat → Nat → α :=
+  fun k i => g k (colOf cpos i)
+
+/-- drift rows of the right-hand sides: `f_k(*chunk_pos)` -/
+def driftRhs (g : Nat → (Nat → α) → α) (dim : Nat) (angles anis : List α) (tpos : Nat → Nat → α) : Nat → Nat → α :=
+  fun k p => g k (colOf (driftPos dim angles anis tpos) p)
+
+/-- the matrix of `Krige(model, cond_pos, cond_val, drift_functions=g)` -/
+def krigeDriftMatAt (L : Krige.Layout) (cov : α → α) (dim : Nat) (angles anis : List α) (cpos : Nat → Nat → α)
+    (err : Nat → α) (g : Nat → (Nat → α) → α) (E : Nat → Nat → α) : Nat → Nat → α :=
+  krigeMatAt L cov dim angles anis cpos err (driftMat g cpos) E
+
+/-- `Krige(model, cond_pos, cond_val, drift_functions=g)(pos, return_var=True)` -/
+def krigeDriftAt (sched : Sched) (L : Krige.Layout) (cf : α → α) (dim : Nat) (angles anis : List α)
+    (cpos tpos : Nat → Nat → α) (g : Nat → (Nat → α) → α) (e : Nat → Nat → α) (M : Nat → Nat → α) (cond : Nat → α) (sill : α)
+    (pnt cs : Nat) : (Nat → α) × (Nat → α) :=
+  krigeAt sched L cf dim angles anis cpos tpos (driftRhs g dim angles anis tpos) e M cond sill pnt cs
 
 /-- the wave vectors seen from the raw coordinates: `Mᵀ k_j` with `M = matrix_isometrize(dim, angles, anis)` -/
 def modesT (dim : Nat) (angles anis : List α) (k : Nat → Nat → α) : Nat → Nat → α :=
@@ -166,6 +203,15 @@ def ops (op : String) (j : Json) : Option (Except String Json) :=
       let cc := tab2 (distCC dim a.toList s.toList (ofList2 cpos n)) n n
       let ct := tab2 (distCT dim a.toList s.toList (ofList2 cpos n) (ofList2 tpos m)) n m
       return Json.arr #[fl2 cc, fl2 ct])
+  | "pipe_drift" => some (do
+      -- the positions a Krige object with (angles, anis) evaluates its functional drift terms at (right-hand sides):
+      -- anisometrize(isometrize(targets)); and the isometrized targets themselves (what they must NOT be evaluated at)
+      let dim ← getNat j "dim"; let m ← getNat j "m"
+      let a ← getFloats j "angles"; let s ← getFloats j "anis"
+      let tpos ← getFloats j "tpos"
+      let dp := tab2 (driftPos dim a.toList s.toList (ofList2 tpos m)) dim m
+      let ip := tab2 (isoPos dim a.toList s.toList (ofList2 tpos m)) dim m
+      return Json.arr #[fl2 dp, fl2 ip])
   | "pipe_srf" => some (do
       -- SRF level: generator output at the isometrized positions, and the same sum with transformed wave vectors at the
       -- raw positions; `gen` = "randmeth" (needs `var`) or "fourier" (needs `sf`)
